@@ -451,6 +451,33 @@ def run_sample(item, only=None):
             stats["n"] += 1
             if got != sorted(exp):
                 rep("sample:generate_events", "multi-day generate_events (period %r min) queue %s, expected %s" % (gperiod, got, sorted(exp)), got, sorted(exp), {"gen": True, "period": period})
+    # ---- the same generator asked twice: a sampler that hands out its STORED array, one non-empty day, first with
+    # restrictive options (stay cap, feasibility cap), then with none - the second answer is about the original samples
+    if only is None or only.get("twice"):
+        stored = np.array([[0.26, 13.3, 95.0], [6.51, 8.02, 5.0], [8.3, 16.05, 120.0]], dtype=float)
+
+        class Stored(StochasticEvents):
+            def sample(self, n_samples):
+                return stored[:n_samples]
+
+        fpph = Fraction(60) / Fraction(period)
+        ok = all((Fraction(x) * fpph - math.floor(Fraction(x) * fpph)) > Fraction(1, 10**6) for a, du, _ in stored.tolist() for x in (a, a + du, a + 1.0))
+        if ok:
+            gen = Stored()
+            with warnings.catch_warnings():
+                warnings.simplefilter("ignore")
+                q1 = gen.generate_events([0, 3], period, V, 6.656, max_len=1, force_feasible=True)
+                q2 = gen.generate_events([0, 3], period, V, 6.656)
+            stats["n"] += 2
+            for label, q, ml, ff in (("restrictive", q1, 1.0, True), ("unrestricted-after-restrictive", q2, None, False)):
+                exp = []
+                for a, du, en in [[0.26, 13.3, 95.0], [6.51, 8.02, 5.0], [8.3, 16.05, 120.0]]:
+                    aa = a + 24.0
+                    du2 = du if ml is None else min(du, ml)
+                    exp.append((math.floor(Fraction(aa) * fpph), math.floor(Fraction(aa + du2) * fpph), round(min(en, 6.656 * du2) if ff else en, 9)))
+                got = sorted((e.ev.arrival, e.ev.departure, round(float(e.ev.requested_energy), 9)) for ts, e in q._queue)
+                if got != sorted(exp):
+                    rep("sample:generate_events:%s" % label, "generate_events (%s options, the sampler returns its stored array) gave %s, expected %s" % (label, got, sorted(exp)), got, sorted(exp), {"twice": True, "period": period})
     return viol, stats
 
 
